@@ -115,6 +115,58 @@ func sweep(budget time.Duration, ctxMode bool) (iters, protoState, stale, other 
 	return
 }
 
+// closeRecv: a context with a response already queued is closed and Recv is called at once (before the library's
+// own clean-up goroutine has run): the closed context must not hand out the response.
+func closeRecv(rounds int) (iters, delivered, other int) {
+	p := surveyor.NewProtocol()
+	defer p.Close()
+	rec := &mp.Recorder{}
+	pipe := mp.NewPipe(1, 0, p, rec)
+	if err := pipe.Attach(); err != nil {
+		return 0, 0, 1
+	}
+	defer pipe.Close()
+	for i := 0; i < rounds; i++ {
+		c, err := p.OpenContext()
+		if err != nil {
+			other++
+			continue
+		}
+		_ = c.SetOption(mangos.OptionSurveyTime, 10*time.Second)
+		_ = c.SetOption(mangos.OptionRecvDeadline, 20*time.Millisecond)
+		rec.TakeTx()
+		m := mangos.NewMessage(8)
+		m.Body = append(m.Body, "cr"...)
+		if c.SendMsg(m) != nil {
+			other++
+			_ = c.Close()
+			continue
+		}
+		var id []byte
+		for t0 := time.Now(); id == nil && time.Since(t0) < 20*time.Millisecond; {
+			for _, tx := range rec.TakeTx() {
+				if string(tx.Body) == "cr" && len(tx.Header) >= 4 {
+					id = append([]byte{}, tx.Header[:4]...)
+				}
+			}
+		}
+		if id == nil {
+			other++
+			_ = c.Close()
+			continue
+		}
+		pipe.Inject(append(append([]byte{}, id...), "ans"...), 50*time.Millisecond)
+		time.Sleep(300 * time.Microsecond) // the response is in the survey's queue now
+		iters++
+		_ = c.Close()
+		if r, e := c.RecvMsg(); e == nil {
+			delivered++
+			r.Free()
+		}
+	}
+	return
+}
+
 func main() {
 	if len(os.Args) < 2 {
 		fmt.Fprintln(os.Stderr, "usage: c07race <out.v>")
@@ -133,4 +185,10 @@ func main() {
 		items = append(items, fmt.Sprintf("(%s, %d, %d, %d, %d)", coqgen.Bool(ctx), it, ps, st, ot))
 	}
 	w.Def("race_cases", "list (bool * N * N * N * N)", items)
+	rounds := 300
+	if coqgen.Thorough() {
+		rounds = 3000
+	}
+	it, dl, ot := closeRecv(rounds)
+	w.Def("closerecv_cases", "list (N * N * N)", []string{fmt.Sprintf("(%d, %d, %d)", it, dl, ot)})
 }
